@@ -288,6 +288,8 @@ func (w *world) apply(ws []string) bool {
 						s.L.Add("#deadline ext %s %s %d", name, s.Alias(fmt.Sprint(m["requestId"])), int64(dl))
 						return fmt.Sprintf("200,INVOKE,%s,arn=%s,%s", s.Alias(fmt.Sprint(m["requestId"])), arn, tr)
 					case "SHUTDOWN":
+						dl, _ := m["deadlineMs"].(float64)
+						s.L.Add("#deadline ext %s shutdown %d", name, int64(dl))
 						return fmt.Sprintf("200,SHUTDOWN,%v", m["shutdownReason"])
 					}
 					return "200,?"
